@@ -52,7 +52,7 @@ func startProc(emptyDir string) (*proc, error) {
 		return nil, err
 	}
 	cmd := exec.Command(exe)
-	cmd.Env = append(os.Environ(), "VERIF_CHILD=1", "GOMEMLIMIT=1536MiB", "GOTRACEBACK=single", "VERIF_C01_DIR="+emptyDir)
+	cmd.Env = append(os.Environ(), "VERIF_CHILD=1", "GOMEMLIMIT=768MiB", "GOTRACEBACK=single", "VERIF_C01_DIR="+emptyDir)
 	cmd.Dir = emptyDir
 	ip, err := cmd.StdinPipe()
 	if err != nil {
@@ -171,6 +171,13 @@ func (w *isolated) runOnce(h *History, b time.Duration) Verdict {
 		}
 		if rep.Panic != "" {
 			return Verdict{Rep: rep, Crashed: true, Kind: "panic", Msg: "panic during " + rep.Phase + ": " + rep.Panic, Wall: wall}
+		}
+		if rep.Resource != "" {
+			// the child has ended itself (or carries an oversized heap): start a fresh one
+			w.p.in.Flush()
+			w.p.kill()
+			w.p = nil
+			return Verdict{Rep: rep, Crashed: true, Kind: "resource", Msg: "resource limit exceeded: " + rep.Resource, Wall: wall}
 		}
 		return Verdict{Rep: rep, Wall: wall}
 	case <-timer.C:
